@@ -21,4 +21,4 @@ def check(spec, ctx):
 
 
 def parts():
-    return [Part("compositions", check, strategy=c01.spec_st, strategy_thorough=c01.spec_deep, budget={"quick": 1600, "thorough": 100000})]
+    return [Part("compositions", check, strategy=c01.spec_st, strategy_thorough=c01.spec_deep, budget={"quick": 1600, "thorough": 100000}, fuzz={"thorough": 6000})]
